@@ -19,12 +19,16 @@ func parseLoadFile94(reader io.Reader, coresize Address) (WarriorData, error) {
 
 	lineNum := 0
 	breader := bufio.NewReader(reader)
-	for {
-		// empty lines and last lines without newlines seem to be missed
-		// should something else be used? or are these not worth handling?
+	atEOF := false
+	for !atEOF {
+		// the last line may end without a newline: ReadString then returns
+		// it together with io.EOF
 		raw_line, err := breader.ReadString('\n')
 		if err != nil {
-			break
+			if len(raw_line) == 0 {
+				break
+			}
+			atEOF = true
 		}
 		lineNum++
 
@@ -275,12 +279,16 @@ func parseLoadFile88(reader io.Reader, coresize Address) (WarriorData, error) {
 
 	lineNum := 0
 	breader := bufio.NewReader(reader)
-	for {
-		// empty lines and last lines without newlines seem to be missed
-		// should something else be used? or are these not worth handling?
+	atEOF := false
+	for !atEOF {
+		// the last line may end without a newline: ReadString then returns
+		// it together with io.EOF
 		raw_line, err := breader.ReadString('\n')
 		if err != nil {
-			break
+			if len(raw_line) == 0 {
+				break
+			}
+			atEOF = true
 		}
 		lineNum++
 
